@@ -85,7 +85,16 @@ def run(repo, rep, tier):
     rep.ob("C17.R2", main, "cat-numbers catches FileFormatError, FileError and UnsupportedError around every Document use, reports and exits 1", ok, detail, key="C17.R2@cat-numbers:handler")
     for fn in ("print_sheet_names", "print_table_names", "print_table"):
         f = repo.func("_cat_numbers.py", fn)
-        ok = any(isinstance(c, ast.Call) and call_name(c) == "Document" for c in ast.walk(f))
+        # in the function itself or in a module-level function it calls (a generator it iterates runs inside it as well)
+        mod_fns = {n.name: n for n in repo.tree("_cat_numbers.py").body if isinstance(n, ast.FunctionDef)}
+        reach, todo = [f], [f]
+        while todo:
+            cur_ = todo.pop()
+            for c in ast.walk(cur_):
+                if isinstance(c, ast.Call) and isinstance(c.func, ast.Name) and c.func.id in mod_fns and mod_fns[c.func.id] not in reach and c.func.id != "main":
+                    reach.append(mod_fns[c.func.id])
+                    todo.append(mod_fns[c.func.id])
+        ok = any(isinstance(c, ast.Call) and call_name(c) == "Document" for f_ in reach for c in ast.walk(f_))
         rep.ob("C17.R2", f, f"{fn} opens the document inside the guarded region", ok, "", key=f"C17.R2@cat-numbers:{fn}")
     # values taken out of the (untrusted) property list are type-checked before they reach string functions
     dv = repo.func("iwork.py", "IWork.document_version")
